@@ -212,6 +212,15 @@ func (f *Func) callGraph(args *argBuilder) (
 					continue
 				}
 
+				// A typed argument whose exact type and subtype was given
+				// as a typed input is satisfied by that input; it is not
+				// something the redefined function has to ask for again.
+				if out, ok := g.Vertex(graph.VertexID(&typedOutputVertex{
+					Type: v.Type, Subtype: v.Subtype,
+				})).(*typedOutputVertex); ok && out.Value.IsValid() {
+					continue
+				}
+
 				value = Value{
 					Type:    v.Type,
 					Subtype: v.Subtype,
